@@ -33,3 +33,9 @@ out=['# Seeded changes (produced by fresh sub-agents from the property text only
 for r in rows: out.append('| %s | %s | %s | %s |'%r)
 open(ROOT+'/seeded/RESULTS.md','w').write('\n'.join(out)+'\n')
 print('\n'.join(out[4:]))
+
+s=open(ROOT+'/DESIGN.md').read()
+b,e='<!-- SEEDS-BEGIN -->','<!-- SEEDS-END -->'
+if b in s:
+    s=s[:s.index(b)+len(b)]+'\n'+'\n'.join(out[2:])+'\n'+s[s.index(e):]
+    open(ROOT+'/DESIGN.md','w').write(s)
